@@ -608,6 +608,9 @@ const KEYS: &[&str] = &[
     "file", "Title", "Artist", "volume", "state", "OK", "ACK", "list_OK", "binar", "binaryx", "Binary", "a", "A-b", "x_y",
     "changed", "size", "type", "Last-Modified", "duration", "Time", "Id", "Pos", "directory", "playlist", "sticker",
     "MUSICBRAINZ_TRACKID", "-", "_",
+    // names that differ from another name only in the case of a letter (`status` sends `time`, song
+    // listings `Time`; `listneighbors` sends `name`, songs `Name`): keys are case-sensitive byte strings
+    "time", "TIME", "title", "TITLE", "File", "FILE", "name", "Name", "A", "artist", "X_Y", "Changed", "ok", "Ack", "Size",
 ];
 
 fn gen_value(r: &mut Rng, big: bool) -> String {
